@@ -200,7 +200,17 @@ func TestVerifC07Exhaustive(t *testing.T) {
 		steps = 4
 	}
 	vs.RunExhaustive(t, "C07", 3_000_000, func(c *vs.Case) error {
-		return vw.PropC07(c, compositeFactory, vw.RolloutOpts{MaxChildren: 2, Steps: steps, Small: true, Deletes: vs.Tier() == "thorough"})
+		return vw.PropC07(c, compositeFactory, vw.RolloutOpts{MaxChildren: 2, Steps: steps, Small: true})
+	})
+}
+
+// the same small rollouts with external deletion of any child at any step (thorough tier)
+func TestVerifC07ExhaustiveDeletes(t *testing.T) {
+	if vs.Tier() != "thorough" {
+		t.Skip("thorough tier only")
+	}
+	vs.RunExhaustive(t, "C07", 3_000_000, func(c *vs.Case) error {
+		return vw.PropC07(c, compositeFactory, vw.RolloutOpts{MaxChildren: 2, Steps: 3, Small: true, Deletes: true})
 	})
 }
 
@@ -277,7 +287,8 @@ func TestVerifC08RegressionsScale(t *testing.T) {
 
 func TestVerifC09Exhaustive(t *testing.T) {
 	vs.RunExhaustive(t, "C09", 3_000_000, func(c *vs.Case) error {
-		return vw.PropC09(c, compositeFactory, vw.RolloutOpts{MaxChildren: 2, Small: true})
+		// quick: one parent change per scenario; thorough: also a second change 0-2 syncs later
+		return vw.PropC09(c, compositeFactory, vw.RolloutOpts{MaxChildren: 2, Small: true, SingleEdit: vs.Tier() != "thorough"})
 	})
 }
 
